@@ -168,8 +168,25 @@ class Handler:
         pass
 
 
+class OneShot(list):
+    """What a one-shot iterator argument yielded.  The library receives a fresh one-shot iterator over the same items; the
+    handlers see this list (an oracle that iterates the caller's iterator itself finds it exhausted - or exhausts it)."""
+
+
+def _is_one_shot(a):
+    return hasattr(a, '__next__') and hasattr(a, '__iter__') and not hasattr(a, '__len__')
+
+
 def call_monitored(op, fn, handler, args, kwargs):
     m = M
+    call_args, call_kwargs = args, kwargs
+    if any(_is_one_shot(a) for a in args) or any(_is_one_shot(v) for v in kwargs.values()):
+        seen = [OneShot(a) if _is_one_shot(a) else a for a in args]
+        seen_kw = {k: (OneShot(v) if _is_one_shot(v) else v) for k, v in kwargs.items()}
+        call_args = tuple(iter(a) if isinstance(a, OneShot) else a for a in seen)
+        call_kwargs = {k: (iter(v) if isinstance(v, OneShot) else v) for k, v in seen_kw.items()}
+        args, kwargs = tuple(seen), seen_kw
+        m.counters['one_shot_arguments'] += 1
     m.seq += 1
     seq = m.seq
     m.depth += 1
@@ -194,7 +211,7 @@ def call_monitored(op, fn, handler, args, kwargs):
         result = None
         exc = None
         try:
-            result = fn(*args, **kwargs)
+            result = fn(*call_args, **call_kwargs)
         except MonitorBug:
             raise
         except BaseException as e:   # noqa
